@@ -4,7 +4,8 @@
   of the per-block iteration limit (no bounds).  Clauses the current code violates are kept in full
   in a comment, with `…_partial` (true under the stated extra hypothesis) and `…_counterexample`.
 
-  Clauses of the property text and the theorems that carry them (model = the code with fixes D1, D2, D3)
+  Clauses of the property text and the theorems that carry them (model = the code with fixes D1, D2;
+  D3 — activation in the middle of an epoch — is NOT repaired: an existing test pins it, see fixes/fix_d3.status)
     gauge never pays more than deposited ........ asset_gauge_bounded, rollapp_gauge_bounded, gauge_bounded
     stream never pays more than its total ....... stream_epoch_bounded (per epoch), stream_bounded (all admissible
                                                   histories; `Admissible` excludes governance re-targeting, see
@@ -16,8 +17,9 @@
                                                   hypothesis holds for what `Distribute` iterates
                                                   (distribute_data_sorted); state level: paging_never_overserves
                                                   (no EndBlock hands out more than was pending, any limit).
-                                                  NOT proved at state level: that nothing pending is lost over an
-                                                  epoch (two-run equality); regressions below + differential run.
+                                                  FALSE at state level as long as D3 stands: paging_midepoch_counterexample.
+                                                  NOT proved at state level even without D3: that nothing pending
+                                                  is lost over an epoch (two-run equality); regression + differential run.
   Endorsement gauges / sponsored streams are C16's (not in M-Incent).
 -/
 import DymVerif.Lemmas.IncentInv
@@ -371,14 +373,15 @@ theorem module_solvent_streamer_partial (now mi : Nat) (ops : List Op) (hw : ∀
     streamerOwed (run (init now mi) ops) i ≤ amt ((run (init now mi) ops).bank.get streamerAddr) i :=
   run_solvent ops _ (init_ginv now mi) (init_sstruct now mi) (init_solv now mi) hw hno i
 
-/-- re-targeting in the middle of an epoch is excluded for a reason: stream 1 (1000 coins, gauges 1 and 3)
-    is half served with limit 1, then re-targeted to gauge 3 alone — gauge 3 now receives the whole epoch
-    amount: 1500 of 1000 handed out, and the next EndBlock cannot pay stream 2 (block processing stops) -/
+/-- re-targeting in the middle of an epoch is excluded for a reason: stream 1 (1000 coins, gauges 1 and 2,
+    1000 for its last epoch) is half served with limit 1, then re-targeted to gauge 2 alone — gauge 2 now
+    receives the whole epoch amount: 1500 of 1000 handed out, and the next EndBlock cannot pay stream 2
+    (block processing stops) -/
 def retargetHistory : List Op :=
   [.begin 1, .end_, .createGauge 0 true 0 1 true [] 101 1, .createGauge 0 true 0 1 true [] 101 1,
    .createGauge 0 true 0 1 true [] 101 1, .locks [⟨1, 0, 100, 3600⟩], .fund streamerAddr [2000],
-   .createStream [1000] [⟨1, 1⟩, ⟨3, 1⟩] 101 1 1, .createStream [1000] [⟨2, 1⟩] 101 1 1,
-   .begin 3601, .end_, .replaceDistr 1 [⟨3, 1⟩], .begin 10, .end_, .begin 10, .end_]
+   .createStream [1000] [⟨1, 1⟩, ⟨2, 1⟩] 101 1 2, .createStream [1000] [⟨3, 1⟩] 101 1 2,
+   .begin 3601, .end_, .begin 3601, .end_, .replaceDistr 1 [⟨2, 1⟩], .begin 10, .end_, .begin 10, .end_]
 
 theorem stream_bounded_retarget_counterexample :
     (run (init 100 1) retargetHistory).streams.map (fun s => (s.id, s.coins, s.distributed)) = [(1, [1000], [1500]), (2, [1000], [])] ∧
@@ -403,7 +406,7 @@ theorem module_to_distribute_exact (s : State) (alloc : Coins) (h : moduleToDist
   moduleToDistribute_amt s alloc h hno i
 
 
-/-! ## 6. the histories that depended on the iteration limit before fixes D2 / D3 (regressions) -/
+/-! ## 6. histories that depend(ed) on the iteration limit: D2 (repaired, regression), D3 (standing) -/
 
 def unsortedHistory : List Op :=
   [.begin 1, .end_, .createGauge 0 true 0 1 true [] 101 1, .createGauge 0 true 0 1 true [] 101 1,
@@ -415,7 +418,7 @@ def unsortedHistory : List Op :=
 /-- the reference list is still [3, 2], but with limits 1, 3 and 500 every stream has handed out the same -/
 example : (run (init 100 1) unsortedHistory).active.ids = [3, 2] ∧
     ([1, 3, 500].map (fun mi => (run (init 100 mi) unsortedHistory).streams.map (fun s => (s.id, s.distributed)))) =
-      List.replicate 3 [(1, [3000]), (2, [2000]), (3, [2000])] := by decide
+      List.replicate 3 [(1, []), (2, [1500]), (3, [1500])] := by decide
 
 def midEpochHistory : List Op :=
   [.begin 1, .end_, .createGauge 0 true 0 1 true [] 101 1, .createGauge 0 true 0 1 true [] 101 1,
@@ -423,9 +426,17 @@ def midEpochHistory : List Op :=
    .createStream [3000] [⟨1, 1⟩, ⟨2, 1⟩, ⟨3, 1⟩] 101 0 3] ++ blocks 2 86401 ++
   [.createStream [3000] [⟨1, 1⟩, ⟨2, 1⟩, ⟨3, 1⟩] 172903 0 2, .begin 3601, .end_, .begin 10, .end_, .begin 10, .end_, .begin 86401]
 
-/-- a `day` stream created in the middle of a day now waits for the next day start under every limit -/
-example : ([1, 500].map (fun mi => (run (init 100 mi) midEpochHistory).streams.map (fun s => (s.id, s.distributed, s.filled)))) =
-    List.replicate 2 [(1, [1998], 2), (2, [], 0)] := by decide
+/-- D3 (not repaired): a `day` stream that becomes active at an `hour` boundary is served in its first
+    (partial) day only when the `day` pointer has not yet reached the end: with limit 1 it hands out 1500,
+    with limit 500 nothing — and in both runs the epoch counts as filled.  So the state-level clause
+      ∀ ops mi mi', Admissible ops → (run (init now mi) ops).streams = (run (init now mi') ops).streams
+    is false of the code. -/
+theorem paging_midepoch_counterexample :
+    (run (init 100 1) midEpochHistory).streams.map (fun s => (s.id, s.distributed, s.filled)) = [(1, [1500], 2), (2, [1500], 1)] ∧
+    (run (init 100 500) midEpochHistory).streams.map (fun s => (s.id, s.distributed, s.filled)) = [(1, [1500], 2), (2, [], 1)] ∧
+    Admissible midEpochHistory := by
+  refine ⟨by decide, by decide, ?_⟩
+  unfold Admissible; decide
 
 /-- non-vacuity of the state-level theorems: in `overHistory` gauges have been funded and have paid out,
     and a lock owner (account 1) has been paid -/
